@@ -48,7 +48,7 @@ class C13(Check):
     )
     assumptions = ["'error' records are not generated (the specification does not define their canonical type name)"]
     required_labels = ["s:record", "s:enum", "s:fixed", "s:ref", "s:namespaced", "variant:differs-textually", "fixed-point", "cross-decode", "excluded:null-ns-nested"]
-    quick = (1500, 1)
+    quick = (3000, 1)
     thorough = (12000, 16)
 
     def __init__(self):
